@@ -9,8 +9,14 @@ for dir in seeded/${pat}*/; do
   id=$(basename "$dir")
   checks=$(python3 -c "import json,sys; print(' '.join(json.load(open('$dir/meta.json'))['caught_by'][:1]))")
   [ -z "$checks" ] && { echo "$id: no caught_by recorded"; continue; }
+  base=$(python3 -c "import json; print(json.load(open('$dir/meta.json')).get('base',''))")
   for c in $checks; do
-    out=$(selftest/run_mutant.sh "$dir/patch.diff" "$c" quick 2>&1 | tail -1)
+    if [ -n "$base" ]; then
+      # a seed superseded by a later fix: commit is checked against the tree it was written for
+      out=$(SEED_BASE=$base selftest/validate_seed.sh "$dir" "$c" 2>&1 | grep -q "^check $c -> exit 1" && echo "exit=1" || echo "exit=?")
+    else
+      out=$(selftest/run_mutant.sh "$dir/patch.diff" "$c" quick 2>&1 | tail -1)
+    fi
     if [ "$out" = "exit=1" ]; then echo "$id $c caught"; else echo "$id $c NOT-CAUGHT ($out)"; fail=1; fi
   done
 done
